@@ -145,6 +145,10 @@ func (w *c16World) randomCfgStep(rng *kit.Rand) string {
 			part["enable_delta"] = false
 		}
 		return send("auto-off", n, part)
+	case cur.Auto && rng.Chance(1, 4):
+		n := cur
+		n.Delta = !cur.Delta
+		return send("delta-flip", n, map[string]any{"enable_delta": n.Delta})
 	}
 	switch rng.Intn(14) {
 	case 0:
